@@ -492,7 +492,7 @@ func (h *H) Submit(tx interfaces.Transaction, what string) {
 	x := h.reg(tx)
 	err := h.F.SubmitTx(tx)
 	h.ev(fmt.Sprintf("ESubmit (%s) %s", h.coqTx(x), lib.CoqBool(err == nil)))
-	h.note("submit tx %d (%s) -> %v", x.id, what, err == nil)
+	h.note("submit tx %d (%s) -> %v %s", x.id, what, err == nil, errStr(err))
 	h.kinds["submit:"+what+fmt.Sprintf(":%v", err == nil)]++
 	h.Observe()
 }
@@ -660,6 +660,31 @@ func (h *H) Observe() {
 						map[string]interface{}{"outpoint": fmt.Sprintf("(%d,%d)", h.refID(in.Previous.TxID), in.Previous.Index), "txs": []int{other, id}})
 				}
 				seen[in.Previous] = id
+			}
+		}
+		// the input slot must hold exactly the outpoints of the pool members
+		inSlot := map[string]common.Uint256{}
+		for _, e := range h.F.Pool.SnapshotVerif().Slots {
+			if e.Slot == "TxInputsReferKeys" {
+				inSlot[e.Key] = e.Holder
+			}
+		}
+		want := map[string]common.Uint256{}
+		for _, t := range h.F.PoolTxs() {
+			for _, in := range t.Inputs() {
+				want[in.ReferKey()] = t.Hash()
+			}
+		}
+		for k, holder := range inSlot {
+			if w, ok := want[k]; !ok || w != holder {
+				h.fail("TxPool:stale-input-key", "the input slot blocks an outpoint that no pool transaction spends", map[string]interface{}{"key": k[:16], "holder": h.refID(holder)})
+				break
+			}
+		}
+		for k := range want {
+			if _, ok := inSlot[k]; !ok {
+				h.fail("TxPool:missing-input-key", "a pool transaction's outpoint is not registered in the input slot", map[string]interface{}{"key": k[:16]})
+				break
 			}
 		}
 		sort.Ints(ids)
